@@ -2,7 +2,7 @@
    The OCaml driver (ocaml/modelrun.ml) and the in-Coq cross-check both go through dispatch. *)
 From RcProxy Require Import Base.Bytes Base.Sx Base.Dec Gen.Generated Spec.KeySlot Model.Crc16
   Spec.RespGrammar Spec.SplitSpec Spec.CommandSpec
-  Spec.RouteSpec Model.RespBuf Model.Commands Model.ClientCodec Model.ClientFeed Model.ServerCodec Model.Route Model.AuthIp Model.Cluster.
+  Spec.RouteSpec Model.RespBuf Model.Commands Model.ClientCodec Model.ClientFeed Model.ServerCodec Model.Route Model.AuthIp Model.Cluster Model.Proxy.
 
 Definition e_hash (a : sx) : sx :=
   match a with SB k => sN (Hash k) | _ => bad end.
@@ -370,6 +370,93 @@ Definition o_cluster (a : sx) : sx :=
   | _ => bad
   end.
 
+(* ---- the event loop ----
+   input ( (limit password timeout max_active) ((addr dialable) ...) ((lo hi addr) ...) (event ...) )
+   events: (0 c admitted) connect | (1 c bytes) client data | (2 ((addr k (slot ...)) ...)) run tasks
+           (3 addr k bytes) backend data | (4 c) client close | (5 addr k) backend close | (6) timeout scan
+           (7 addr k) schedule the topology probe on that connection
+   backend connections are named (address, k-th connection dialled to that address) *)
+Definition servers_of (st : pst) (addr : bytes) : list nat :=
+  map fst (filter (fun p => beqb (ps_addr (snd p)) addr) (rev (servers st))).
+
+(* servers st is in creation order except that update keeps positions; creation order = ascending sid *)
+Definition sids_of (st : pst) (addr : bytes) : list nat :=
+  filter (fun s => match lookup s (servers st) with Some sv => beqb (ps_addr sv) addr | None => false end)
+         (seq 0 (next_sid st)).
+
+Definition find_sid (st : pst) (addr : bytes) (k : Z) : option nat := nth_error (sids_of st addr) (Z.to_nat k).
+
+Definition sx_event (st : pst) (e : sx) : option event :=
+  match e with
+  | SL [SN 0%Z; SN c; SN adm] => Some (EConnect (Z.to_nat c) (negb (Z.eqb adm 0)))
+  | SL [SN 1%Z; SN c; SB b; SL totals] =>
+      Some (EClientData (Z.to_nat c) b
+              (concat (map (fun t => match t with SL [SB a; SN n] => [(a, Z.to_nat n)] | _ => [] end) totals)))
+  | SL [SN 2%Z; SL orders] =>
+      Some (ETasks (concat (map (fun o => match o with
+                                          | SL [SB a; SN k; SL slots] =>
+                                              match find_sid st a k, get_zl (SL slots) with
+                                              | Some s, Some zs => [(s, map Z.to_N zs)]
+                                              | _, _ => []
+                                              end
+                                          | _ => [] end) orders)))
+  | SL [SN 3%Z; SB a; SN k; SB b] => match find_sid st a k with Some s => Some (EServerData s b) | None => None end
+  | SL [SN 4%Z; SN c] => Some (EClientClose (Z.to_nat c))
+  | SL [SN 5%Z; SB a; SN k] => match find_sid st a k with Some s => Some (EServerClose s) | None => None end
+  | SL [SN 6%Z] => Some ETimeout
+  | SL [SN 7%Z; SB a; SN k] => match find_sid st a k with Some s => Some (EProbe s) | None => None end
+  | _ => None
+  end.
+
+Fixpoint insert_bytes_key {A} (x : bytes * A) (l : list (bytes * A)) : list (bytes * A) :=
+  match l with [] => [x] | y :: r => if Cluster.bytes_leb (fst x) (fst y) then x :: l else y :: insert_bytes_key x r end.
+
+Definition addrs_of (st : pst) : list bytes :=
+  map fst (fold_right insert_bytes_key [] (map (fun p => (pp_addr p, tt)) (pools st))).
+
+Definition sx_observe (st : pst) : sx :=
+  SL [ SL (map (fun p => let c := fst p in let cl := snd p in
+                         SL [snat c; sbool (pc_open cl); snat (length (pc_queue cl)); SB (pc_got cl);
+                             sbool (match pc_queue cl with m :: _ => msg_done st m | [] => false end)])
+                (fold_right (fun x l => insert_by (fun q => N.of_nat (fst q)) x l) [] (clients st)));
+       SL (concat (map (fun a =>
+             map (fun ks => let k := fst ks in let s := snd ks in
+                            match lookup s (servers st) with
+                            | Some sv => SL [SB a; snat k; sbool (ps_open sv); snat (length (ps_inq sv)); snat (length (ps_outq sv)); SB (ps_got sv)]
+                            | None => bad end)
+                 (combine (seq 0 (length (sids_of st a))) (sids_of st a)))
+             (addrs_of st))) ].
+
+Fixpoint run_loop (st : pst) (evs : list sx) : list sx :=
+  match evs with
+  | [] => []
+  | e :: rest =>
+      match sx_event st e with
+      | None => [SL [SB (bs "bad-event")]]
+      | Some ev =>
+          match step st ev with
+          | ROk st' => sx_observe st' :: run_loop st' rest
+          | RCrash w => [SL [SB (bs "crash"); SB w]]
+          | RHang w => [SL [SB (bs "hang"); SB w]]
+          | RShutdown => [SL [SB (bs "shutdown")]]
+          end
+      end
+  end.
+
+Definition e_loop (a : sx) : sx :=
+  match a with
+  | SL [SL [SN limit; SB pw; SN tmo; SN maxa]; SL pls; SL sls; SL evs] =>
+      match map_opt (fun p => match p with SL [SB a; SN d] =>
+                                Some {| pp_addr := a; pp_slave := false; pp_conns := []; pp_closed := false; pp_dialable := negb (Z.eqb d 0) |}
+                              | _ => None end) pls,
+            map_opt (fun r => match r with SL [SN lo; SN hi; SB a] => Some (lo, hi, a) | _ => None end) sls with
+      | Some ps, Some ss =>
+          SL (run_loop (init_state {| cf_limit := limit; cf_password := pw; cf_timeout := negb (Z.eqb tmo 0); cf_max_active := Z.to_nat maxa |} ps ss) evs)
+      | _, _ => bad
+      end
+  | _ => bad
+  end.
+
 (* ---- spec oracles over the client decoder's observable output ---- *)
 (* parse one canonical request off the front of b (strict grammar), returning args and rest *)
 Definition strict_prefix (b : bytes) : option (list bytes * bytes) :=
@@ -681,7 +768,8 @@ Definition entries : list (bytes * (sx -> sx)) :=
     (bs "o_authip", o_authip);
     (bs "cluster", e_cluster);
     (bs "cparse", e_cparse);
-    (bs "o_cluster", o_cluster) ].
+    (bs "o_cluster", o_cluster);
+    (bs "loop", e_loop) ].
 
 Definition dispatch (name : bytes) (a : sx) : sx :=
   match assoc_b name entries with
